@@ -69,3 +69,8 @@ copy_val(const json_t *from, json_t *into, ...);
  * parameters it generates. */
 bool
 shared_hdr_has(const json_t *jwe, const char *name);
+
+/* Direct encryption and direct key agreement have no encrypted key: is the
+ * recipient's "encrypted_key" absent or the empty string? */
+bool
+no_encrypted_key(const json_t *rcp);
